@@ -173,7 +173,7 @@ POLY_FUNCS = ["derivative", "gradient", "hessian", "poly_divmod", "poly_divide",
               "set_dimensions", "align_polynomials", "align_exponents", "align_indeterminants",
               "align_shape", "call", "equal", "not_equal", "str", "pickle", "aspolynomial", "clean",
               "boolpoly", "boolpoly", "astype_ops", "where_kw", "where_kw", "sequence",
-              "numeric_args", "numeric_args"]
+              "numeric_args", "numeric_args", "copyto_poly", "foreign_arrays"]
 
 
 class ArgumentMutated(Exception):
@@ -204,6 +204,11 @@ def direct_case(g):
             a = g.poly(shape=shape, names=names, kind="bool", maxexp=2, nterms=rng.choice([2, 3, 4]))
             b = g.poly(shape=rng.choice([shape, ()]), names=names, kind="bool", maxexp=2,
                        allow_views=False)
+            case["operands"] = [a, b]
+        if case["op"] == "copyto_poly":
+            # several terms, stored in the caller's (shuffled) order
+            a = g.poly(shape=shape, names=names, kind=kind, maxexp=3, nterms=rng.choice([3, 4, 5]),
+                       via="retain", allow_views=False)
             case["operands"] = [a, b]
     else:
         shape = g.shape(2)
@@ -273,6 +278,53 @@ def call_polyfunc(numpoly, name, a, b):
             out.append((numpoly.any(c), numpoly.sum(c), c + c, c * c, abs(c) if dtype != "bool" else c))
             if changed(before, snapshot(c)):
                 raise ArgumentMutated(f"argument of dtype {dtype} modified")
+        return out
+    if name == "copyto_poly":
+        # a polynomial source (terms in whatever order it stores them) copied into a destination
+        # that has storage for all of them: only the destination may change
+        out = []
+        for source in (a, numpoly.variable(3)[:2] if a.ndim == 0 else a, b):
+            dst = numpoly.polynomial_from_attributes(
+                source.exponents, [numpy.zeros(source.shape, dtype=source.dtype)] * len(source.exponents),
+                names=source.names, dtype=source.dtype, retain_coefficients=True, retain_names=True)
+            before = snapshot(source)
+            for func in (numpoly.copyto, numpy.copyto):
+                try:
+                    func(dst, source)
+                except Exception as err:  # pylint: disable=broad-except
+                    out.append(type(err).__name__)
+            # ... and the error path: a destination that lacks one of the terms
+            if len(source.exponents) > 1:
+                small = numpoly.polynomial_from_attributes(
+                    source.exponents[:1], [numpy.zeros(source.shape, dtype=source.dtype)],
+                    names=source.names, retain_coefficients=True, retain_names=True)
+                try:
+                    numpoly.copyto(small, source)
+                except Exception as err:  # pylint: disable=broad-except
+                    out.append(type(err).__name__)
+            if changed(before, snapshot(source)):
+                raise ArgumentMutated(f"copyto modified its source: {changed(before, snapshot(source))}")
+            out.append(dst)
+        return out
+    if name == "foreign_arrays":
+        # numeric arrays in non-native byte order / unusual layouts as operands and as data
+        out = []
+        shape = a.shape or (2,)
+        base = numpy.arange(1, int(numpy.prod(shape)) + 1).reshape(shape)
+        for dtype in (">f8", ">i8", ">i4", ">c16", "<f4"):
+            arr = base.astype(dtype)
+            before = snapshot(arr)
+            calls = (lambda: numpoly.polynomial(arr), lambda: numpoly.aspolynomial(arr),
+                     lambda: a + arr, lambda: numpoly.multiply(a, arr), lambda: a == arr,
+                     lambda: numpoly.polynomial_from_attributes([[0], [1]], [arr, arr]),
+                     lambda: a(*([arr] + [1] * (len(a.names) - 1))), lambda: numpoly.sum(arr * a))
+            for func in calls:
+                try:
+                    out.append(func())
+                except Exception as err:  # pylint: disable=broad-except
+                    out.append(type(err).__name__)
+                if changed(before, snapshot(arr)):
+                    raise ArgumentMutated(f"array of dtype {dtype} modified: now {arr.tolist()!r:.80}")
         return out
     if name == "numeric_args":
         # numeric arrays passed as axes / shapes / repeats / indices / evaluation points,
